@@ -23,15 +23,14 @@ Not decided: DAG arithmetic over interleavings; see C41 for uncommitted updates.
 from __future__ import annotations
 
 import ast
-import itertools
-from typing import Dict, List, Optional, Tuple
+from typing import Dict, List, Tuple
 
 from engines import jobgraphfacts as jg
 from engines import pyfacts as pf
 from engines import sqlfront as sf
 from engines import sqlrules as sr
 from engines.common import AnalysisError, Ctx
-from engines.sqlast import N, text
+from engines.sqlast import text
 
 META = dict(
     category='other',
